@@ -886,6 +886,16 @@ def judge(chk, cfg):
         return ("broken", "direct-oracle-crash", f"{type(e).__name__}: {e}")
     if dbad:
         sig = field_signature(cfg, dbad[0][0])
+        if sig == "auto-filter-counts-heralds-twice":
+            # that name claims a cause: it is kept only if the same configuration with the documented default
+            # written out explicitly is answered correctly
+            try:
+                if judge(chk, dict(cfg, filter=eff)) is not None:
+                    sig = "conditioning-" + dbad[0][0]
+            except core.LeanError:
+                raise
+            except Exception:  # noqa: BLE001
+                sig = "conditioning-" + dbad[0][0]
         return ("violation", sig,
                 f"{dbad[0][0]} differs from conditioning the unconditioned distribution "
                 f"(heralds {cfg['heralds']}, filter {cfg['filter']}, post-selection {cfg['ps']}): {dbad[0][1]}")
@@ -1116,7 +1126,10 @@ def handle(chk, cfg, do_shrink=True):
              sample={k: cfg[k] for k in ("kind", "backend", "m", "heralds", "filter", "ps", "keep")})
     if res is not None:
         kind, sig, what = res
-        small = shrink(chk, cfg, sig) if do_shrink else cfg
+        seen = chk.__dict__.setdefault("_c04_shrunk", set())
+        first = (kind, sig) not in seen             # one minimised replay per signature is reported
+        seen.add((kind, sig))
+        small = shrink(chk, cfg, sig) if do_shrink and first else cfg
         r2 = judge(chk, small)
         if r2 is not None and r2[1] == sig:
             what = r2[2]
@@ -1216,7 +1229,7 @@ def run(chk: core.Check):
     chk.real = RealWorker(chk.seed)
     try:
         rng = chk.rng
-        for cfg in load_corpus():
+        for cfg in ([] if os.environ.get("VERIF_C04_NO_CORPUS") else load_corpus()):   # (development switch)
             handle(chk, cfg, do_shrink=False)
         n_sim = chk.pick(560, 4800)
         n_sup = chk.pick(50, 450)
